@@ -52,7 +52,7 @@ func install(c Case) (*tape.Mux, func()) {
 	mux := tape.Install(c.Seed)
 	un := func() {}
 	if c.Proto == proto.CMPKeygen || c.Proto == proto.CMPRefresh {
-		un = fix.InstallPrimeSource(int(c.Seed % 31))
+		un = fix.InstallPrimeSourceByParty(mux, int(c.Seed%31))
 	}
 	return mux, func() { un(); mux.Uninstall() }
 }
